@@ -188,6 +188,7 @@ func (i *input) lex() {
 			}
 
 			startLine := i.pos.line
+			closed := false
 			for {
 				c, ok = i.peekRune()
 				if !ok {
@@ -196,6 +197,7 @@ func (i *input) lex() {
 				if hasEscape && c == '\\' {
 					i.readRune() // Eat escape.
 				} else if i.match(quote) {
+					closed = true
 					break
 				} else if (i.lang == language.JavaScript || i.lang == language.Perl) && c == '\n' {
 					// JavaScript and Perl allow you to
@@ -219,6 +221,11 @@ func (i *input) lex() {
 					Text:      content.String(),
 				})
 			}
+			if closed {
+				// The closing quote has been consumed. The next rune can be
+				// the start of a comment or of another string.
+				continue
+			}
 		default:
 			startLine := i.pos.line
 			var comment bytes.Buffer
@@ -229,27 +236,34 @@ func (i *input) lex() {
 					if i.eof() {
 						return
 					}
-					c := i.readRune()
-					comment.WriteRune(c)
+					// Look for the delimiters before consuming anything: the
+					// comment can be empty, and a delimiter can directly follow
+					// another one.
 					if i.lang.NestedComments() && i.match(start) {
 						// Allows nested comments.
 						comment.WriteString(start)
 						nesting++
+						continue
 					}
 					if i.match(end) {
 						if nesting > 0 {
 							comment.WriteString(end)
 							nesting--
-						} else {
-							break
+							continue
 						}
+						break
 					}
+					c := i.readRune()
+					comment.WriteRune(c)
 				}
 				i.comments = append(i.comments, &Comment{
 					StartLine: startLine,
 					EndLine:   i.pos.line,
 					Text:      comment.String(),
 				})
+				// The end delimiter has been consumed. The next rune can be the
+				// start of another comment or of a string.
+				continue
 			} else if i.singleLineComment() { // Single line comment
 				for {
 					if i.eof() {
